@@ -26,6 +26,26 @@ impl Scenario {
             e => Err(format!("unknown engine {}", e)),
         }
     }
+    /// Scenario as written into the evidence samples: big ones are abbreviated.
+    pub fn sample_json(&self) -> J {
+        if self.size() <= 80 { return self.to_json(); }
+        match self {
+            Scenario::Stream(s) => {
+                let full = s.to_json();
+                let text: String = full.get("text_readable").and_then(J::as_str).unwrap_or("").chars().take(160).collect();
+                J::Obj(vec![("entry".into(), full.get("entry").cloned().unwrap_or(J::Null)), ("target".into(), full.get("target").cloned().unwrap_or(J::Null)), ("options".into(), full.get("options").cloned().unwrap_or(J::Null)),
+                    ("abbreviated".into(), J::Bool(true)), ("size".into(), J::UInt(s.size() as u64)), ("text_readable_first_160".into(), J::Str(text)), ("faults".into(), full.get("faults").cloned().unwrap_or(J::Null))])
+            }
+            Scenario::Hist(h) => {
+                let mut short = h.clone();
+                short.ops.truncate(40);
+                let mut j = short.to_json();
+                j.set("abbreviated_to_first_40_of", J::UInt(h.ops.len() as u64));
+                j
+            }
+            Scenario::Deep(d) => d.to_json(),
+        }
+    }
     pub fn size(&self) -> usize {
         match self { Scenario::Stream(s) => s.size(), Scenario::Deep(d) => d.depth as usize, Scenario::Hist(h) => h.size() }
     }
